@@ -141,8 +141,16 @@ func fileRefineCases(c *Ctx, r *Rand, n int, fc FileCfg, tag string, cases *[]*R
 		if len(p.Scripts) == 0 || usesControlOpsAsCommands(p) {
 			continue
 		}
-		src, _ := RenderFile(f, Style{R: r, Layout: r.Intn(3), Parens: r.Chance(1, 4)})
-		compileBoth(c, fmt.Sprintf("%s%d", tag, i), p, src, Opts{AutoVar: av, FontConfig: repoFontConfig}, cases, rejected)
+		// every third file is written with poryswitch (matched cases and '_' fallbacks, nested)
+		// around what it denotes
+		written := f
+		var sw map[string]string
+		if i%3 == 2 {
+			sw = map[string]string{"GAME": "RUBY", "LANG": "EN"}
+			written, _ = DecorateFile(f, sw, r, true, true, true, false)
+		}
+		src, _ := RenderFile(written, Style{R: r, Layout: r.Intn(3), Parens: r.Chance(1, 4)})
+		compileBoth(c, fmt.Sprintf("%s%d", tag, i), p, src, Opts{AutoVar: av, FontConfig: repoFontConfig, Switches: sw}, cases, rejected)
 		made++
 		if i == 0 {
 			c.Sample(map[string]interface{}{"family": "files with inline data", "source": src})
